@@ -41,6 +41,15 @@ def gen_cases(tier, seed):
     # stored witnesses of repaired defects 19 and 20 (instances as plain data, independent of the generators)
     cases.append({'fam': 'FILE', 'gseed': [0], 'cfg': {'newton': 'Full', 'step_solver': 'Symmetric', 'linear': 'GMRES', 'control': 'DistanceRatio', 'penalty': 'LagrangianFilter', 'active': 'SmallestActiveSet', 'scaling': 'none', 'iteration_limit': 300, 'K_P': 0.9747019779428236, 'K_I': 0.09053247692043143, 'newton_tol': 1e-08}, 'gopts': {'path': 'witness/C06_controller_overflow.json'}, 'fmt': 'dok', 'dup': 0, 'y0': 'none', 'log': 'DEBUG', 'display_interval': 0.1})
     cases.append({'fam': 'FILE', 'gseed': [0], 'cfg': {'newton': 'ActiveSet', 'step_solver': 'Symmetric', 'linear': 'LU', 'control': 'Fixed', 'penalty': 'ParetoDecrease', 'active': 'Explicit', 'scaling': 'custom', 'tau': 1.0, 'iteration_limit': 300, 'report_rcond': True, 'collect_path': True, 'rho': 0.06779697154482475, 'weights': {'vw': [-6, 4, 3, 6, -3, -5, 0, -3, 1, -4, -1, 0], 'cw': [4, 4], 'ow': 4}}, 'gopts': {'path': 'witness/C06_pareto_overflow.json'}, 'fmt': 'csc', 'dup': 2, 'y0': 'none', 'log': 'CRITICAL', 'display_interval': 0.1})
+    # long uninterrupted histories: more than a thousand iterations in each of which the inverse step size is reduced
+    # (unbounded LP with a small cost, objective limit switched off)
+    for j in range(8 if tier == "quick" else 120):
+        cfgd = C.sample(rng)
+        cfgd.update(control=["DistanceRatio", "Exact", "ResiduumRatio", "DistanceRatio"][j % 4], scaling="none",
+                    iteration_limit=1100, obj_lower_limit=float("-inf"), newton="Simplified", linear="LU")
+        lc = work.mk_case("UNB", [seed, 900000 + j], cfgd, gopts={"variant": 5})
+        lc.update(log="CRITICAL", display_interval=0.1, y0="none", long_history=True)
+        cases.append(lc)
     for _ in range(nrand):
         fam = str(rng.choice(FAMS, p=[0.2, 0.3, 0.0, 0.15, 0.15, 0.1, 0.1]))
         cases.append(_case(rng, fam, [seed, k], C.sample(rng)))
@@ -91,7 +100,7 @@ def _case(rng, fam, gseed, cfgd):
         # Hessian reaches the step solvers in the format the callback chose
         case["gopts"] = {"variant": 7}
         cfgd["scaling"] = "none"
-        case["fmt"] = ["dia", "diaj", "dia", "bsr", "lil", "dok", "coo", "csr", "csc", "dia"][gseed[-1] % 10]
+        case["fmt"] = ["dia", "diaj", "dia", "bsr", "dia", "dok", "coo", "dia", "csc", "dia"][gseed[-1] % 10]
         case["linear_vars"] = True
     if fam in ("QP", "NLP") and "gopts" not in case and rng.random() < 0.1:
         case["gopts"] = {"row_force": ["free"]}   # a row without any bound
@@ -177,6 +186,8 @@ def run_case(case):
         res["ctr"]["runs_with_derivative_check"] = 1
         res["ctr"]["runs_with_derivative_check_debug_log"] = int(case.get("log") == "DEBUG")
         res["ctr"]["runs_with_derivative_check_no_constraints"] = int(p.spec.m == 0)
+    if case.get("long_history") and out.result is not None:
+        res["ctr"]["long_history_runs_beyond_1000_iterations"] = int(out.result.iterations > 1000)
     if case.get("linear_vars"):
         res["ctr"]["linear_variables_fmt_" + p.fmt] = 1
     if case.get("zero_jac_eq"):
@@ -202,7 +213,7 @@ def finalize(agg, tier):
                 "distinct by spec seed",
         "floors": {"outcome_status:Optimal": 200, "log_DEBUG": 100, "report_rcond_on": 100,
                    "outcome_raise:lamb_max": 5, "newton_Globalized": 50, "linear_MINRES": 10,
-                   "penalty_LagrangianFilter": 50, "family_NCVX": 50, "fmt_dia": 20, "fmt_bsr": 20, "zero_jacobian_equality_fmt_dia": 3, "linear_variables_fmt_dia": 5, "runs_with_derivative_check": 60,
+                   "penalty_LagrangianFilter": 50, "family_NCVX": 50, "fmt_dia": 20, "fmt_bsr": 20, "zero_jacobian_equality_fmt_dia": 3, "linear_variables_fmt_dia": 3, "long_history_runs_beyond_1000_iterations": 3, "runs_with_derivative_check": 60,
                    "runs_with_derivative_check_debug_log": 10, "runs_with_derivative_check_no_constraints": 10},
         "assumptions": ["exceptions raised while constructing the Solver (scaling computation) are counted, not judged: "
                         "the property speaks about solve()",
